@@ -1,8 +1,10 @@
 """C09 - database reads always reflect the latest writes (module Persistence).
 
 Model: Persistence.tla - rows per table, the LRU caches of the @cached getters holding REFERENCES to parsed
-JSON objects (a small heap), rows handed to the caller; actions Add / Update (pops a cache) / Get (shallow copy
-of the cached row as cachebox does, DeepCopy = TRUE: proposed repair) / MutTop / MutNested.  TLC explores every
+JSON objects (a small heap), rows handed to the caller; actions Add / Update (pops a cache) / Get (DeepCopy = TRUE:
+the cached getters deep-copy since fix 1d9dc38; FALSE: cachebox' default shallow copy, the repaired defect) / GetAll
+(bulk and relational readers: fresh rows, caches untouched; BulkFills: a reader that stores the rows it returns in
+the cache - defect model) / MutTop / MutNested.  TLC explores every
 history of <= MaxDepth calls over <= 2 ids for each kind of table (cached+updatable: step, port, deployment,
 target, filter; uncached+updatable: workflow, execution; cached: token; uncached relations: provenance,
 dependency) and a two-table configuration.
@@ -22,7 +24,7 @@ from vh.sut import persist as P
 
 LEVEL = "model_checking"
 
-ACTIONS = ["AddF", "UpdateF", "GetF", "MutTopF", "MutNestedF"]
+ACTIONS = ["AddF", "UpdateF", "GetF", "GetAllF", "MutTopF", "MutNestedF"]
 INVS = ["TypeOK", "GetReturnsDbRow", "CacheCoherent", "RetsSeparate"]
 
 
@@ -40,9 +42,10 @@ async def _replay_graph(ctx, scratch, tab, lines, label):
     rp = P.Replayer(ctx, env, tab, label=label)
     n = reads = 0
     try:
-        for path in P.build_paths(lines):
+        without = ("getall",) if (tab.kind != "D" and not tab.bulk_names) else ()
+        for path in P.build_paths(lines, without=without):
             tr = path[-1]
-            nontrivial = tr["act"] in ("update", "mut_nested", "mut_top") or (tr["act"] == "get" and len(path) > 2)
+            nontrivial = tr["act"] in ("update", "mut_nested", "mut_top") or (tr["act"] in ("get", "getall") and len(path) > 2)
             ctx.case((tab.name, json.dumps(tr["from"]), tr["act"], str(tr["args"])), nontrivial)
             reads += await rp.run(path)
             ctx.count("edges:%s" % tr["act"])
@@ -56,66 +59,56 @@ async def _replay_graph(ctx, scratch, tab, lines, label):
 
 
 def _model_runs(ctx, depth):
-    """With deep-copying post-processing of the cached getters the statement holds in the model for every kind of
-    table (and, thorough tier, for histories that mix two cached tables).  The as-is model (shallow copy) is explored
-    by the generation run, which also evaluates the properties on every transition."""
-    f = ctx.tlc("Persistence", "MC_Persistence", "fix.cfg", timeout=1800, coverage=not ctx.quick,
-                files={"fix.cfg": P.cfg_text(depth, deep=True, gen=False, invariants=INVS)})
-    ctx.require(f.ok, "model with deep-copying getters violates %s: specification error\n%s" % (f.violated, f.stdout[-800:]))
+    """The model of the code as it is (deep-copying cached getters since fix 1d9dc38, bulk readers that leave the
+    caches alone) satisfies the statement for every kind of table (thorough: also for histories that mix two cached
+    tables).  Thorough tier also runs the two DEFECT models - shallow-copying getters (the defect repaired by 1d9dc38)
+    and a bulk reader that stores the rows it returns in the cache - and requires that TLC refutes the statement on
+    both: the properties are not vacuous with respect to either mechanism."""
+    f = ctx.tlc("Persistence", "MC_Persistence", "code.cfg", timeout=1800, coverage=not ctx.quick,
+                files={"code.cfg": P.cfg_text(depth, gen=False, invariants=INVS)})
+    ctx.require(f.ok, "model of the code as it is violates %s: specification error\n%s" % (f.violated, f.stdout[-800:]))
     if not ctx.quick:        # quick tier: vacuity is guarded by the action sets of the generation run (same actions)
         ctx.require_coverage(f, ACTIONS)
-    ctx.require(f.distinct > 5000, "suspiciously small state space: %d" % f.distinct)
+    ctx.require(f.distinct > 10000, "suspiciously small state space: %d" % f.distinct)
+    cex = {}
     if not ctx.quick:
         two = ctx.tlc("Persistence", "MC_Persistence", "two.cfg", timeout=1800,
-                      files={"two.cfg": P.cfg_text(6, deep=True, gen=False, two=True, invariants=INVS)})
+                      files={"two.cfg": P.cfg_text(6, gen=False, two=True, invariants=INVS)})
         ctx.require(two.ok, "two-table model violates %s" % two.violated)
-
-
-def _asis_counterexamples(ctx, lines):
-    """Shortest histories after which the as-is model breaks each property (first violating transition in BFS order)."""
-    out = {}
-    for path in P.build_paths(lines):
-        tr = path[-1]
-        for inv, key in (("GetReturnsDbRow", "getok"), ("CacheCoherent", "coherent"), ("RetsSeparate", "separate")):
-            if not tr[key] and inv not in out:
-                out[inv] = {"kind": tr["focus"], "history": P.history_of(path)}
-        if len(out) == 3:
-            break
-    return out
+        for name, kw in (("shallow-copying cached getters", {"deep": False}), ("bulk reader fills the cache with the rows it returns", {"bulk_fills": '{"A"}'})):
+            v = ctx.tlc("Persistence", "MC_Persistence", "defect.cfg", timeout=1800, count=False, workers=1,
+                        files={"defect.cfg": P.cfg_text(6, gen=False, invariants=["GetReturnsDbRow"], **kw)})
+            ctx.require(v.error == "invariant" and v.trace, "defect model '%s' does not break GetReturnsDbRow: vacuous property" % name)
+            cex[name] = [s["state"]["obs"] for s in v.trace[1:]]
+    ctx.extra["defect_model_counterexamples"] = cex
 
 
 def run(ctx):
-    ctx.rule = ("TLC enumerates every history of <= MaxDepth add/update/get/caller-mutation calls over <= 2 ids for each kind of "
-                "table; every transition is replayed on a real SqliteDatabase file for every concrete table of that kind and all "
-                "reads are compared with a second uncached sqlite3 connection; non-trivial = the call is an update or a caller "
-                "mutation, or a read after at least two earlier calls")
+    ctx.rule = ("TLC enumerates every history of <= MaxDepth add / update / get / bulk-read / caller-mutation calls over <= 2 ids "
+                "for each kind of table; every transition is replayed on a real SqliteDatabase file for every concrete table of that "
+                "kind (a bulk read = every bulk/relational reader of the table, the caller keeps and mutates the rows of all of them) "
+                "and all reads are compared with a second uncached sqlite3 connection; non-trivial = the call is an update or a "
+                "caller mutation, or a read after at least two earlier calls")
     scratch = ctx.scratch("db")
-    depth = ctx.pick(6, 7)
+    depth = ctx.pick(6, 7)              # exhaustive model checking
+    gdepth = ctx.pick(5, 6)             # graph emitted for replay
     _model_runs(ctx, depth)
-    lines = _gen(ctx, depth)
-    cex = _asis_counterexamples(ctx, lines)
-    ctx.extra["asis_model_counterexamples"] = cex
-    ctx.require(len(cex) == 3 and all(c["kind"] in "AC" for c in cex.values()),
-                "the as-is model no longer shows the shallow-copy leak on cached tables: model out of date (%s)" % cex)
+    lines = _gen(ctx, gdepth)
+    ctx.require(all(t["getok"] and t["coherent"] and t["separate"] for t in lines),
+                "a transition of the model of the code as it is breaks a property (TLC's own evaluation in the generation run)")
     by_kind = {k: [t for t in lines if t["focus"] == k] for k in "ABCD"}
     for k in "ABCD":
         acts = {t["act"] for t in by_kind[k]}
-        want = {"add", "get", "mut_top", "mut_nested"} | ({"update"} if k in "AB" else set())
+        want = {"add", "get", "mut_top", "mut_nested"} | ({"update"} if k in "AB" else set()) | ({"getall"} if k in "ABC" else set())
         ctx.require(acts == want, "vacuous generation for kind %s: %s" % (k, sorted(acts)))
-        ctx.count("graph_edges:kind_%s:depth%d" % (k, depth), len(by_kind[k]))
-    leak_edges = sum(1 for t in lines if t["reads"] != t["truth"])
-    ctx.require(leak_edges > 0, "no transition of the as-is model reaches a state whose reads differ from the database")
-    ctx.count("graph_edges_where_asis_model_predicts_a_wrong_read", leak_edges)
+        ctx.count("graph_edges:kind_%s:depth%d" % (k, gdepth), len(by_kind[k]))
     lines2 = [] if ctx.quick else _gen(ctx, 5, two=True)
     ctx.count("graph_edges:two_tables", len(lines2))
-    # quick tier: complete depth-6 graph on `step`, depth 5 on the first table of the other kinds, depth 4 elsewhere;
-    # thorough tier: depth 7 on the first table of each kind, depth 6 elsewhere
+    # quick tier: depth 5 on the first table of each kind, depth 4 elsewhere; thorough tier: depth 6 everywhere
     first = {"A": "step", "B": "workflow", "C": "token", "D": "provenance"}
 
     def replay_depth(tab):
-        if ctx.quick:
-            return depth if tab.name == "step" else (depth - 1 if first[tab.kind] == tab.name else depth - 2)
-        return depth if first[tab.kind] == tab.name else depth - 1
+        return gdepth if (not ctx.quick or first[tab.kind] == tab.name) else gdepth - 1
 
     async def main():
         for tab in P.TABLES:
@@ -130,12 +123,14 @@ def run(ctx):
     if err is not None:
         raise err
     ctx.exhaustive = True
-    ctx.sample({"as_is_model_counterexamples": cex})
-    ctx.sample(P.history_of(next(p for p in P.build_paths(by_kind["A"]) if len(p) == depth and p[-1]["act"] == "get")))
+    ctx.sample(P.history_of(next(p for p in P.build_paths(by_kind["A"]) if len(p) == gdepth and p[-1]["act"] == "get"
+                                 and any(t["act"] == "getall" for t in p) and any(t["act"].startswith("mut") for t in p))))
+    ctx.sample({"defect_model_counterexamples": ctx.extra.get("defect_model_counterexamples")})
     ctx.assumptions += [
         "single caller: histories, not schedules (a get_* in flight while update_* pops the cache is outside C09)",
         "the truth is read after committing the connection of the database under test (StreamFlow only commits on close)",
         "tables are exercised one at a time plus one two-table configuration; caches are per table and keyed by id",
+        "a bulk read of the model stands for all bulk/relational readers of the table at once (the caller keeps every row they return)",
     ]
 
 
@@ -162,12 +157,23 @@ async def _replay_two(ctx, scratch, lines, single=False):
                         await tabs[args[0]].update(env, ids[args[0]][args[1] - 1], args[2], t["truth"][args[0]][args[1] - 1][args[2]])
                         lastw[(args[0], args[1])] = "update_%s" % tabs[args[0]].name
                     elif act == "get":
-                        rets.append((args[0], await tabs[args[0]].get(env, ids[args[0]][args[1] - 1])))
+                        rets.append((args[0], [(None, await tabs[args[0]].get(env, ids[args[0]][args[1] - 1]))]))
                         rets[:] = rets[-2:]
-                    elif act == "mut_top":
-                        tabs[rets[args[0] - 1][0]].mut_top(rets[args[0] - 1][1])
-                    elif act == "mut_nested":
-                        tabs[rets[args[0] - 1][0]].mut_nested(rets[args[0] - 1][1])
+                    elif act == "getall":
+                        res = await tabs[args[0]].bulk(env, ids[args[0]])
+                        for reader, objs, got, truth in res:
+                            reads += 1
+                            sig = P.classify_bulk(tabs[args[0]], reader, got, truth)
+                            if sig:
+                                ctx.violation(sig + ":two-tables", {"history": hist, "table": tabs[args[0]].name, "got": repr(got), "truth": truth, "two": True},
+                                              "%s in %s returned %r, a fresh connection reads %r" % (reader, hist, got, truth))
+                        for pos in range(len(ids[args[0]])):
+                            rets.append((args[0], [(reader, objs[pos]) for reader, objs, _, _ in res if objs[pos] is not None]))
+                            rets[:] = rets[-2:]
+                    elif act in ("mut_top", "mut_nested"):
+                        a, held = rets[args[0] - 1]
+                        for origin, row in held:
+                            (tabs[a].mut_top if act == "mut_top" else tabs[a].mut_nested)(row, origin)
                 await env.commit()
                 for a, tab in tabs.items():
                     for i, cid in enumerate(ids[a], 1):
